@@ -61,29 +61,36 @@ End Impl.
 
 (* the bounds of the standard library's Mutex / RwLock / guards, and structural rules for everything that only
    owns or borrows its argument *)
-Fixpoint std_auto (m : marker) (t : ty) : bool :=
+(* [rf]: the raw lock type; lock_api lets the *Ref guards be sent iff R::GuardMarker: Send (and the payload is Send);
+   the guards that carry the thread's key are never Send *)
+Fixpoint ref_auto (rf : rawflags) (m : marker) (t : ty) : bool :=
   match t with
   | TPay s y => flag m s y
-  | TRef t' => std_auto MSync t'
-  | TMutRef t' => std_auto m t'
-  | TTuple ts => forallb (std_auto m) ts
+  | TRef t' => ref_auto rf MSync t'
+  | TMutRef t' => ref_auto rf m t'
+  | TTuple ts => forallb (ref_auto rf m) ts
   | TCon c t' =>
       if String.eqb c "ThreadKey" then match m with MSend => false | MSync => true end
-      else if String.eqb c "Mutex" then std_auto MSend t'                                   (* Send and Sync both need T: Send *)
-      else if String.eqb c "RwLock" then match m with MSend => std_auto MSend t'
-                                                    | MSync => std_auto MSend t' && std_auto MSync t' end
-      else if (String.eqb c "MutexGuard" || String.eqb c "RwLockReadGuard" || String.eqb c "RwLockWriteGuard" ||
-               String.eqb c "MutexRef" || String.eqb c "RwLockReadRef" || String.eqb c "RwLockWriteRef")%bool
-           then match m with MSend => false | MSync => std_auto MSync t' end              (* std guards: !Send, Sync iff T: Sync *)
+      else if String.eqb c "Mutex" then ref_auto rf MSend t'                                   (* Send and Sync both need T: Send *)
+      else if String.eqb c "RwLock" then match m with MSend => ref_auto rf MSend t'
+                                                    | MSync => ref_auto rf MSend t' && ref_auto rf MSync t' end
+      else if (String.eqb c "MutexRef" || String.eqb c "RwLockReadRef" || String.eqb c "RwLockWriteRef")%bool
+           then match m with MSend => gm_send rf && ref_auto rf MSend t' | MSync => ref_auto rf MSync t' end
+      else if (String.eqb c "MutexGuard" || String.eqb c "RwLockReadGuard" || String.eqb c "RwLockWriteGuard")%bool
+           then match m with MSend => false | MSync => ref_auto rf MSync t' end              (* they carry the key *)
       else if (String.eqb c "LockGuard" || String.eqb c "PoisonGuard")%bool
-           then match m with MSend => false | MSync => std_auto MSync t' end              (* they carry the key *)
-      else if String.eqb c "RefLockCollection" then std_auto MSync t'                      (* holds a &L *)
+           then match m with MSend => false | MSync => ref_auto rf MSync t' end              (* they carry the key *)
+      else if String.eqb c "RefLockCollection" then ref_auto rf MSync t'                      (* holds a &L *)
       else if (String.eqb c "BoxedLockCollection" || String.eqb c "OwnedLockCollection" ||
                String.eqb c "RetryingLockCollection" || String.eqb c "Poisonable" || String.eqb c "PoisonRef" ||
                String.eqb c "PoisonError")%bool
-           then std_auto m t'                                                               (* own their argument *)
+           then ref_auto rf m t'                                                               (* own their argument *)
       else false
   end.
+
+(* the bounds of the standard library's Mutex / RwLock / guards (std guards are never Send), and structural rules for
+   everything that only owns or borrows its argument: the reference for the default raw lock (parking_lot) *)
+Definition std_auto : marker -> ty -> bool := ref_auto parking_lot_flags.
 
 Definition table_impl := impl_auto auto_rules parking_lot_flags.
 
@@ -113,9 +120,14 @@ Definition k1 : bool :=
 
 (* K2: the key and everything carrying it cannot be cloned, copied, defaulted or sent; no public fields; Keyable is
    sealed with exactly the two impls *)
+(* the raw lock type R is chosen by the user: every combination of R: Send / Sync and R::GuardMarker: Send / Sync *)
+Definition all_flags : list rawflags :=
+  flat_map (fun a => flat_map (fun b => flat_map (fun c => map (fun d => mkrf a b c d) [true; false]) [true; false])
+                              [true; false]) [true; false].
+
 Definition k2 : bool :=
   forallb (fun c => negb (has_impl c "Clone") && negb (has_impl c "Copy") && negb (has_impl c "Default") &&
-                    negb (table_impl MSend (TCon c (TPay true true)))) key_carriers &&
+                    forallb (fun rf => negb (impl_auto auto_rules rf MSend (TCon c (TPay true true)))) all_flags) key_carriers &&
   negb key_has_public_field && is_nil_str public_fields &&
   keyable_sealed && str_list_eqb keyable_impls ["&mut ThreadKey"; "ThreadKey"].
 
